@@ -1,4 +1,5 @@
 """C06 — No input makes the library or the HTTP server panic or hang."""
+import json
 import os
 
 import common as C
@@ -9,7 +10,9 @@ def build(ctx):
     ctx.log("translate", out)
     if not ok:
         ctx.diag.append("translator failed: " + out[-300:])
-    C.prove(ctx, ["Props/C06.v"], ["Oblig/C06Obl.v", "Model/TotalityFacts.v", "Model/PartialTable.v"])
+    C.prove(ctx, ["Props/C06.v", "Props/C06Ops.v"],
+            ["Oblig/C06Obl.v", "Model/TotalityFacts.v", "Model/PartialTable.v",
+             "Oblig/C06OpsObl.v", "Model/TotalOpsFacts.v", "Model/TotalJsonFacts.v", "Model/OpSiteTable.v"])
     ok, out = C.build_harness()
     ctx.log("go build", out)
     if not ok:
@@ -19,6 +22,10 @@ def build(ctx):
     ctx.log("ocaml", out[-3000:])
     if not ok:
         ctx.diag.append("extracted model does not build: " + out[-600:])
+    ok, out = C.build_ocaml("c06ops")
+    ctx.log("ocaml c06ops", out[-3000:])
+    if not ok:
+        ctx.diag.append("extracted shape model does not build: " + out[-600:])
     return True
 
 
@@ -41,10 +48,73 @@ def oracle(ctx, n, sub="oracle"):
 
 def search(ctx, factor):
     before = len(ctx.fails)
+    shape_corr(ctx, ctx.scale(500, 6000) * factor, "opssearch")
     oracle(ctx, ctx.scale(3000, 60000) * factor, "search")
     found = ctx.fails[before:]
     del ctx.fails[before:]
     return found
+
+
+def shape_corr(ctx, n, sub="opscorr"):
+    """Phase 2: the shape model (TotalOps.v / TotalJson.v) against the real operations on files, JSON
+    documents and request lists built to have exactly that shape.  A panic of the implementation on a
+    well-formed shape is a failure of the property; panics on ill-formed shapes are the known findings
+    panic:shape:<class>; any observation the model does not reproduce is a correspondence failure."""
+    d = os.path.join(ctx.rundir, sub)
+    os.makedirs(d, exist_ok=True)
+    rc, out = C.sh([os.path.join(C.BIN, "c06ops"), "corr", "-out", d, "-n", str(n), "-corpus", os.path.join(C.VERIF, "corpus", "C06")], timeout=1800)
+    ctx.log("c06ops corr", out[-1000:])
+    drv = os.path.join(C.BUILD, "ocaml", "c06ops", "driver")
+    if rc != 0 or not os.path.exists(drv):
+        ctx.diag.append("shape correspondence could not run: " + out[-300:])
+        return
+    rc2, out2 = C.sh("%s %s %s > %s" % (drv, os.path.join(d, "cases.txt"), os.path.join(d, "stats.txt"), os.path.join(d, "model.txt")), timeout=3000)
+    if rc2 != 0:
+        ctx.diag.append("extracted shape model crashed: " + out2[-300:])
+    ctx.compare("shape model: operations, FileFromJSON, routes", os.path.join(d, "model.txt"), os.path.join(d, "impl.txt"), os.path.join(d, "cases.txt"))
+    counts, cls = {}, {}
+    try:
+        for l in open(os.path.join(d, "stats.txt")):
+            a = l.split()
+            if a and a[0] == "count":
+                counts[" ".join(a[1:-1])] = int(a[-1])
+            elif a and a[0] == "case":
+                cls[int(a[1])] = a[2]
+    except OSError:
+        pass
+    per_key = {}
+    panics_wf = 0
+    try:
+        for l in open(os.path.join(d, "cases.jsonl")):
+            c = json.loads(l)
+            if c.get("impl") != "PANIC":
+                continue
+            k = cls.get(c["id"], "?")
+            frame = c.get("frame", "?")
+            kind = c.get("ops", ["?"])[0]
+            if kind == "FromJSON":
+                key = "panic:json:" + frame
+            elif kind == "HTTP":
+                key = "panic:http:" + frame
+            elif k.startswith("nil-"):
+                key = "panic:shape:" + k
+            elif k == "wf+sec" and "mergeableBatcher" in frame:
+                key = "panic:ach.mergeableBatcher.Consume"
+            else:
+                key = "panic:wf-shape:" + frame
+                panics_wf += 1
+            per_key[key] = per_key.get(key, 0) + 1
+            if per_key[key] <= 40:
+                inp = {x: c[x] for x in c if x not in ("id", "impl", "frame")}
+                ctx.fails.append({"kind": "fail", "key": key, "what": "panic in %s on a shape of class %s (%s)" % (frame, k, ",".join(c.get("ops", []))), "input": inp})
+    except OSError:
+        pass
+    try:
+        summ = json.load(open(os.path.join(d, "summary.json")))
+    except (OSError, ValueError):
+        summ = {}
+    ctx.cov["shape_correspondence"] = {"cases": summ.get("cases"), "distribution": summ.get("distribution"),
+                                        "model_vs_impl": counts, "panics_by_key": per_key, "panics_on_wellformed_shapes": panics_wf}
 
 
 def site_stats(ctx):
@@ -63,10 +133,33 @@ def site_stats(ctx):
     ctx.cov["partial_sites"] = {"total": len(rows), "by_kind_class": kinds}
     try:
         acc = open(os.path.join(C.COQ, "Model", "PartialAccounted.v")).read()
-        ctx.cov["partial_sites"]["accounted_entries"] = acc.count("mkacct ")
-        ctx.cov["partial_sites"]["accounted_search_only"] = acc.count('"search-only:')
-        ctx.cov["partial_sites"]["accounted_by_model_theorem"] = acc.count('"model:')
-        ctx.cov["partial_sites"]["accounted_unguarded_known"] = acc.count('"UNGUARDED')
+        ents = [l for l in acc.splitlines() if l.lstrip().startswith("mkacct ")]
+        ctx.cov["partial_sites"]["accounted_entries"] = len(ents)
+        by = {}
+        for l in ents:
+            why = l.split('" "')[-1]
+            k = why.split(":")[0].split(" ")[0]
+            by[k] = by.get(k, 0) + 1
+        ctx.cov["partial_sites"]["accounted_by_reason"] = by
+        ctx.cov["partial_sites"]["accounted_search_only"] = by.get("search-only", 0)
+        ctx.cov["partial_sites"]["accounted_by_model_theorem"] = by.get("model", 0)
+        ctx.cov["partial_sites"]["accounted_unguarded_known"] = by.get("UNGUARDED", 0)
+        # phase 1 left 192 entries to search; what phase 2 discharges
+        ctx.cov["partial_sites"]["phase2_discharged_by_shape_model"] = by.get("ops-model", 0)
+        ctx.cov["partial_sites"]["phase2_discharged_by_type_aware_table"] = sum(by.get(k, 0) for k in ("value", "map", "nil-safe", "loop-bound", "sort-less", "last"))
+    except OSError:
+        pass
+    try:
+        txt = open(os.path.join(C.COQ, "Gen", "OpSites.v")).read()
+        kinds = {}
+        for l in txt.splitlines():
+            if "mkosite " in l:
+                body = l.split("mkosite ", 1)[1].replace('""', "")
+                parts = body.split('"')
+                if len(parts) >= 12:
+                    key = parts[3] + "/" + parts[11]
+                    kinds[key] = kinds.get(key, 0) + 1
+        ctx.cov["op_sites"] = {"total": sum(kinds.values()), "by_kind_class": kinds}
     except OSError:
         pass
 
@@ -77,9 +170,15 @@ def run(ctx):
         "partial-site analysis of the translator (translator/partial.go: syntactic; guard facts = conditions of enclosing if/else, earlier terminating ifs, tagless switch cases; aliases n := len(x) / utf8.RuneCountInString(x) / []rune(x) of single-assignment variables; re-assignment of the operand between guard and use is not tracked)",
         "verif build-tag hook verif_export_c06.go (exports aba8, first, trimSpacesFromLongLine, rightPadShortLine, Reader.readLine unchanged)",
         "coq/Model/PartialAccounted.v: hand-reviewed reasons for sites the table does not discharge ('reviewed', 'loop index'); entries marked 'search-only' are NOT proved",
+        "type resolution of translator/opsites.go (syntactic: struct, method, function and variable declarations; local variables by their defining assignment; no aliasing analysis); the semantics of Go for its classes value / map / nil-safe / loop-bound / sort-less / last",
+        "coq/Model/OpsCovered.v: which definition of the shape model stands for which Go function (checked for completeness against Gen/OpSites.v, not for the body of the transcription: that is the correspondence c06ops)",
+        "contract of encoding/json (struct decoding and MarshalJSON never panic on nil pointers / nil interfaces) and of sort.Slice (less receives indexes in range)",
     ]
     ctx.assumptions += [
-        "PARTIAL: the theorems cover the modelled slicing / indexing / optional-record logic (reader line handling, value-dependent accessors and the validators calling them, padded-field slices, rune-guarded Parse functions); JSON decoding, call sequences, merge/flatten/segment, the 18 HTTP routes and hangs are covered by the recover()+watchdog oracle only",
+        "PARTIAL: the slice / index theorems cover the modelled logic (reader line handling, value-dependent accessors and the validators calling them, padded-field slices, rune-guarded Parse functions); hangs are covered by the watchdog oracle only",
+        "C06_ops_total_partial: call sequences never panic on WELL-FORMED shapes (header, matching control, no nil entry / addenda element, no nil Batcher); the full statement is refuted (C06_ops_total_refuted, known findings panic:shape:<class>); FlattenBatches additionally needs SEC codes NewBatch accepts (known finding panic:ach.mergeableBatcher.Consume)",
+        "C06_json_total_partial: the struct decoding is encoding/json's; C06_handlers_total_partial: NACHA-text bodies are assumed to parse to well-formed files (the reader's invariants stay search-only: 18 sites), repository aliasing after POST …/balance is idealised as a copy",
+        "shapes abstract data: every data-dependent check of the source is an oracle bit; the theorems quantify over all oracles",
         "the first line handed to Reader.readLine has at most 94 runes (Reader.Read cuts lines at 94 runes); the fixed-width branch for longer first lines is modelled and checked by correspondence, not proved",
         "panics inside encoding/json, gorilla/mux, go-kit, x/net/html/charset and memory exhaustion are outside the model",
         "guard facts of the table hold at the site as the translator extracted them (no re-assignment of the guarded operand in between)",
@@ -100,6 +199,7 @@ def run(ctx):
         ctx.compare("slicers/validators/readLine", os.path.join(d, "model.txt"), os.path.join(d, "impl.txt"), os.path.join(d, "cases.txt"))
     else:
         ctx.diag.append("correspondence could not run: " + out[-300:])
+    shape_corr(ctx, ctx.scale(500, 6000))
     summ = oracle(ctx, ctx.scale(3000, 60000))
     ctx.add_summary(summ, "recover+watchdog oracle")
     if ctx.tier == "thorough":
@@ -145,6 +245,14 @@ def replay(path):
     if not ok:
         print(out[-2000:])
         return 1
-    rc, out = C.sh([os.path.join(C.BIN, "c06"), "replay", path], timeout=600)
+    binary = "c06"
+    try:
+        rp = json.load(open(path))
+        inp = rp.get("input", rp)
+        if isinstance(inp, dict) and ("muts" in inp or "edits" in inp or "reqs" in inp) and "data" not in inp:
+            binary = "c06ops"
+    except (OSError, ValueError):
+        pass
+    rc, out = C.sh([os.path.join(C.BIN, binary), "replay", path], timeout=600)
     print(out)
     return 1 if rc != 0 else 0
